@@ -22,7 +22,7 @@ CLAIMED["C10"] = dict(
         "their all-gap columns removed are exactly v's alignment at completion (one merge applies the same whole-column insertion to every member of a side). "
         "Tied to the code by the NODE_DONE hook: snapshot of member gap vectors at completion vs projection of the real final alignment, on UPGMA and k-means trees, "
         "threads 1/4/16 with schedule jitter, plus replay of every real merge through the model. "
-        "recAln_subalignment_preserved states the property for the recAln of the composed pipeline model (tied by kalign_sys); the literal finalRow form is `_partial` (needs distinct member indices at the root, decidable on the result).",
+        "recAln_subalignment_preserved states the property for the recAln of the composed pipeline model (tied by kalign_sys); Props/C10Pipeline closes the literal form without side hypotheses: kalignRun_subalignment_finalRow (every node completed in a successful run: members pairwise distinct, final rows minus all-gap columns = the node's alignment at completion), kalignRun_members_partition, kalignRun_column_mates_stay.",
    note="Premise `Aligner.Valid` monitored on every merge. Trusted: Lean kernel, harness hook dump, Python projection oracle.",
    technique="Lean 4 induction along the sub-tree relation over the weave algebra; hook-based snapshot/projection oracle",
    ref="4 C10")
